@@ -102,9 +102,33 @@ class Result:
 _PMAP_CALLS = []      # (function, chunksize, items) of every pmap call of this run - used to reconstruct histories
 
 
+class ItemCrash(Exception):
+    """a work item raised; carries what is needed to replay it"""
+
+    def __init__(self, fn, item, history, text, in_iopt):
+        super().__init__(text)
+        self.fn, self.item, self.history, self.text, self.in_iopt = fn, item, history, text, in_iopt
+
+
+class _Crash:
+    def __init__(self, index, text, in_iopt):
+        self.index, self.text, self.in_iopt = index, text, in_iopt
+
+
 def _run_chunk(args):
     fn, chunk = args
-    return [fn(t) for t in chunk]
+    out = []
+    for i, t in enumerate(chunk):
+        try:
+            out.append(fn(t))
+        except Exception as e:
+            import traceback
+            tb = traceback.extract_tb(e.__traceback__)
+            in_iopt = bool(tb) and os.path.abspath(tb[-1].filename).startswith(os.path.abspath(REPO) + os.sep)
+            where = f"{os.path.basename(tb[-1].filename)}:{tb[-1].lineno} in {tb[-1].name}" if tb else "?"
+            out.append(_Crash(i, f"{type(e).__name__}: {e} ({where})", in_iopt))
+            break
+    return out
 
 
 def pmap(fn, items, workers=None, chunksize=1):
@@ -116,13 +140,21 @@ def pmap(fn, items, workers=None, chunksize=1):
     workers = workers or WORKERS
     _PMAP_CALLS.append((fn, max(1, chunksize), items))
     if workers <= 1 or len(items) <= 1:
-        return [fn(i) for i in items]
+        o = _run_chunk((fn, items))
+        if o and isinstance(o[-1], _Crash):
+            cr = o[-1]
+            raise ItemCrash(f"{fn.__module__}:{fn.__qualname__}", items[cr.index], items[:cr.index], cr.text, cr.in_iopt)
+        return o
     import multiprocessing as mp
     ctx = mp.get_context("fork")
     cs = max(1, chunksize)
     chunks = [items[i:i + cs] for i in range(0, len(items), cs)]
     with ctx.Pool(min(workers, len(chunks)), maxtasksperchild=1) as pool:
         outs = pool.map(_run_chunk, [(fn, c) for c in chunks], 1)
+    for c, o in zip(chunks, outs):
+        if o and isinstance(o[-1], _Crash):
+            cr = o[-1]
+            raise ItemCrash(f"{fn.__module__}:{fn.__qualname__}", c[cr.index], c[:cr.index], cr.text, cr.in_iopt)
     return [o for c in outs for o in c]
 
 
@@ -141,6 +173,17 @@ def find_history(rec):
                         return dict(fn=f"{fn.__module__}:{fn.__qualname__}", items=jsonable(items[lo:idx]))
                     return None
     return None
+
+
+def replay_crash(rec):
+    """a work item whose drive of the implementation ended in an exception raised inside iOpt: run it again"""
+    import importlib
+    modname, name = rec["fn"].split(":")
+    fn = getattr(importlib.import_module(modname), name)
+    o = _run_chunk((fn, [rec["item"]]))
+    if o and isinstance(o[-1], _Crash) and o[-1].in_iopt:
+        return [f"driving the implementation with valid input raised {o[-1].text}"]
+    return []
 
 
 def run_history(hist):
@@ -250,7 +293,10 @@ def main(argv=None):
             rec = json.load(f)
         if rec.get("_history"):
             run_history(rec["_history"])
-        msgs = mod.replay(rec)
+        if rec.get("driver") == "crash":
+            msgs = replay_crash(rec)
+        else:
+            msgs = mod.replay(rec)
         if msgs:
             for m in msgs[:10]:
                 print("replay:", m)
@@ -265,7 +311,23 @@ def main(argv=None):
 
     t0 = time.time()
     ctx = Ctx(tier, seed)
-    res = mod.run(ctx)
+    try:
+        res = mod.run(ctx)
+    except ItemCrash as c:
+        if not c.in_iopt:
+            raise
+        # An exception raised INSIDE iOpt while a work item drove it with valid input.  On the unchanged tree no work
+        # item raises; such a crash is reported as a finding of this property's exploration, with the item as replay.
+        res = Result()
+        rec = dict(driver="crash", fn=c.fn, item=jsonable(c.item), message=f"work item {c.fn} raised inside iOpt: {c.text}",
+                   sig=dict(kind="crash"))
+        if c.history:
+            rec["_history"] = dict(fn=c.fn, items=jsonable(c.history))
+        res.add_violation(rec)
+        res.cov = dict(states=1, transitions=1, traces_validated_against_impl=1, evaluations=1, distinct_nontrivial=1,
+                       rule="aborted run: the exploration stopped at the first work item that raised inside iOpt; the only "
+                            "case counted is that work item", exhaustive=False,
+                       samples=[dict(fn=c.fn, item=jsonable(c.item))])
     wall = time.time() - t0
 
     real, known_hits, harness_err = [], [], []
